@@ -1259,7 +1259,32 @@ func (g *Gen) opBatchTarget() bool {
 	if g.chance(0.5) {
 		tok = fmt.Sprintf("c%d:%d>e%d", r, g.val(), t)
 	}
-	g.emit(fmt.Sprintf("newb e%d %d m %s %s", l, cnt, fn, tok))
+	var plain []int
+	for _, n := range g.regNames() {
+		if !g.isRel(n) {
+			plain = append(plain, n)
+		}
+	}
+	if len(plain) > 0 && g.chance(0.4) {
+		// the fresh target enters through a batch ADD of the relation component: two entities with
+		// one plain component, a filter for exactly that component, AddBatch(rel>t)
+		pc := plain[g.pick(len(plain))]
+		l = g.nextEnt
+		g.nextEnt += 2
+		g.ents = append(g.ents, l, l+1)
+		cnt = 2
+		g.emit(fmt.Sprintf("newb e%d 2 m nofn c%d:%d", l, pc, g.val()))
+		fl := g.nextFilter
+		g.nextFilter++
+		g.emit(fmt.Sprintf("filter f%d typed with=c%d excl", fl, pc))
+		if _, ok := g.h.filters[fl]; ok {
+			g.filterLabels = append(g.filterLabels, fl)
+			g.typedFilters = append(g.typedFilters, fl)
+		}
+		g.emit(fmt.Sprintf("xchgb f%d m %s +%s", fl, fn, tok))
+	} else {
+		g.emit(fmt.Sprintf("newb e%d %d m %s %s", l, cnt, fn, tok))
+	}
 	g.emit(fmt.Sprintf("del e%d", t))
 	g.emit("stats")
 	// the removed entity as relation target, through the ID-based API
